@@ -225,13 +225,17 @@ def describe_steps(steps):
     return out
 
 
-async def _pump(rx, senders, names, rows, exact, pre_rows=None, needs=None):
+async def _pump(rx, senders, names, rows, exact, pre_rows=None, needs=None, stall=None):
     """send one sample per stream per row (lock-step, same timestamp), collect what the engine(s) emit.
 
     rx: one receiver or a list of receivers (then a list of outputs is returned).
     pre_rows: samples BEFORE row 0 (timestamps -len(pre_rows) .. -1) that only SOME streams deliver:
-    the streams do not start aligned, the evaluator has to discard them while synchronising."""
+    the streams do not start aligned, the evaluator has to discard them while synchronising.
+    stall = [name, k0, n]: rows are 10 s of (virtual) time apart; stream `name` delivers nothing for rows
+    k0 .. k0+n-1 (n * 10 s > 60 s) and then everything it owes, with the original timestamps, at once;
+    the other streams keep delivering (n < 50 samples, within the receiver buffers)."""
     Sample = imp()["Sample"]
+    backlog = []
     rxs = rx if isinstance(rx, list) else [rx]
     gots = [{} for _ in rxs]
     pre_rows = pre_rows or []
@@ -239,13 +243,30 @@ async def _pump(rx, senders, names, rows, exact, pre_rows=None, needs=None):
             [(k, row, names) for k, row in enumerate(rows)]
     for k, row, who in sched:
         ts = E0 + timedelta(seconds=k)
+        if stall and backlog and not stall[1] <= k < stall[1] + stall[2]:
+            for bts, bv in backlog:
+                await senders[stall[0]].send(Sample(bts, None if bv is None else mk(bv)))
+            backlog = []
         for name in who:
             if name not in senders:
                 continue
             v = as_number(dec(row[name]), exact)
+            if stall and name == stall[0] and stall[1] <= k < stall[1] + stall[2]:
+                backlog.append((ts, v))
+                continue
             await senders[name].send(Sample(ts, None if v is None else mk(v)))
-        for _ in range(12):
+        last = k == sched[-1][0]
+        if stall and last and backlog:
+            await asyncio.sleep(10)
+            for bts, bv in backlog:
+                await senders[stall[0]].send(Sample(bts, None if bv is None else mk(bv)))
+            backlog = []
+        for _ in range(12 if not (stall and last) else 12 * (len(rows) + 2)):
             await asyncio.sleep(0)
+        if stall:
+            await asyncio.sleep(10)
+            for _ in range(12):
+                await asyncio.sleep(0)
         for r, got in zip(rxs, gots):
             while r._q:  # pylint: disable=protected-access
                 m = r.consume()
@@ -307,7 +328,7 @@ async def _run_str(case, exact):
     for nme in names:
         chan = reg.get_or_create(I["Sample"][I["Quantity"]], I["CMR"]("ns", int(nme), I["MID"], None).get_channel_name())
         senders[nme] = chan.new_sender()
-    out = await _pump(rx, senders, names, case["rows"], exact, case.get("pre_rows"), [{k.lstrip("#") for k, _ in fetch}])
+    out = await _pump(rx, senders, names, case["rows"], exact, case.get("pre_rows"), [{k.lstrip("#") for k, _ in fetch}], case.get("stall"))
     await _cleanup([eng])
     return {"steps": steps, "fetchers": fetch, "out": out}
 
@@ -434,7 +455,7 @@ async def _run_ho(case, exact):
     senders = {n: chans[n].new_sender() for n in names}
     await asyncio.sleep(0)
     needs = [{k.lstrip("e") for k, _ in d["fetchers"]} for d in descr]
-    outs = await _pump(rxs, senders, names, case["rows"], exact, case.get("pre_rows"), needs)
+    outs = await _pump(rxs, senders, names, case["rows"], exact, case.get("pre_rows"), needs, case.get("stall"))
     for d, o in zip(descr, outs):
         d["out"] = o
     await _cleanup([e for _, _, e in built] + list(engines.values()))
@@ -529,9 +550,116 @@ def gen_signed_case(rng):
             "rows": gen_rows(rng, names, rng.randint(2, 4), rng.choice([0.0, 0.2, 0.4]))}
 
 
+POOL_METRICS = ["ACTIVE_POWER", "REACTIVE_POWER", "CURRENT_PHASE_1", "ACTIVE_POWER_PHASE_1"]
+
+
+async def _run_pool(case, exact):
+    """Several requests on ONE FormulaEnginePool.from_string (what LogicalMeter.start_formula calls).
+    Streams are named "<metric index>:<component id>"; every request is judged on the streams of ITS metric."""
+    I = imp()
+    from frequenz.client.microgrid import ComponentMetricId
+    from frequenz.sdk.timeseries.formula_engine._formula_engine_pool import FormulaEnginePool
+    reg = I["ChannelRegistry"](name="verif")
+    req = I["Broadcast"](name="req")
+    pool = FormulaEnginePool("ns", reg, req.new_sender())
+    engines, descr = [], []
+    for ast_, m, nz in case["requests"]:
+        metric = getattr(ComponentMetricId, POOL_METRICS[m])
+        try:
+            eng = pool.from_string(render(ast_, [1]), metric, nones_are_zeros=bool(nz))
+        except ValueError:
+            return {"error": "ValueError"}
+        first = next((i for i, e in enumerate(engines) if e is eng), len(engines))
+        engines.append(eng)
+        descr.append({"same_as": first, "steps": describe_steps(eng._builder._steps),  # pylint: disable=protected-access
+                      "fetchers": [[k, bool(f._nones_are_zeros)] for k, f in eng._builder._metric_fetchers.items()],  # pylint: disable=protected-access
+                      "metric_of_engine": eng._builder._metric_id.name})  # pylint: disable=protected-access
+    rxs = [e.new_receiver() for e in engines]
+    names = sorted({k for r in case["rows"] for k in r})
+    senders = {}
+    for nme in names:
+        m, cid = nme.split(":")
+        metric = getattr(ComponentMetricId, POOL_METRICS[int(m)])
+        chan = reg.get_or_create(I["Sample"][I["Quantity"]], I["CMR"]("ns", int(cid), metric, None).get_channel_name())
+        senders[nme] = chan.new_sender()
+    needs = [{f"{POOL_METRICS.index(d['metric_of_engine']) if d['metric_of_engine'] in POOL_METRICS else 99}:{k.lstrip('#')}" for k, _ in d["fetchers"]} for d in descr]
+    outs = await _pump(rxs, senders, names, case["rows"], exact, None, needs)
+    for d, o in zip(descr, outs):
+        d["out"] = o
+    distinct = []
+    for e in engines:
+        if not any(e is x for x in distinct):
+            distinct.append(e)
+    await _cleanup(distinct)
+    return {"requests": descr}
+
+
+def pool_first_flag(case, i):
+    """nones_are_zeros in force for request i: the flag of the FIRST request with the same formula and
+    metric (FormulaEnginePool reuses the engine that already exists for a key)"""
+    a, m, _ = case["requests"][i]
+    for b, mb, nzb in case["requests"]:
+        if b == a and mb == m:
+            return bool(nzb)
+    return bool(case["requests"][i][2])
+
+
+def pool_row(row, m):
+    return {k.split(":")[1]: v for k, v in row.items() if k.split(":")[0] == str(m)}
+
+
+def term_pool(case, obs):
+    if "error" in obs:
+        return None
+    reqs = []
+    for (ast_, m, nz), d in zip(case["requests"], obs["requests"]):
+        formula = render(ast_, [1])
+        cs = "[" + "; ".join(c_N(ord(ch)) for ch in formula) + "]"
+        name = "[" + "; ".join(c_N(ord(ch)) for ch in POOL_METRICS[m].lower()) + "]"
+        sub = {"rows": [pool_row(r, m) for r in case["rows"]]}
+        rows = c_rows(sub, d)
+        if rows is None:
+            rows, prog = "[]", "([SOpen; SOpen; SOpen], [])"
+        else:
+            prog = c_prog(d)
+        reqs.append(f"({cs}, {name}, {cbool(nz)}, {prog}, {rows})")
+    return "[" + "; ".join(reqs) + "]"
+
+
+def gen_pool_case(rng):
+    ids = [1, 2, 3]
+    forms = []
+    for _ in range(rng.randint(1, 3)):
+        forms.append(gen_chain(rng, ids, rng.randint(1, 4)) if rng.random() < 0.6 else gen_ast(rng, rng.randint(1, 3), ids, 0.1))
+    metrics = rng.sample(range(len(POOL_METRICS)), rng.randint(1, 3))
+    reqs = []
+    for _ in range(rng.randint(2, 6)):
+        r = rng.random()
+        if reqs and r < 0.35:          # same string, another (or the same) metric
+            a, m, nz = rng.choice(reqs)
+            reqs.append([a, rng.choice(metrics), nz if rng.random() < 0.7 else not nz])
+        elif reqs and r < 0.5:         # identical request again
+            reqs.append(list(rng.choice(reqs)))
+        else:
+            reqs.append([rng.choice(forms), rng.choice(metrics), rng.random() < 0.4])
+    names = sorted({f"{m}:{i}" for a, m, _ in reqs for i in ast_vars(a)})
+    rows = []
+    for _ in range(rng.randint(2, 4)):
+        pm = rng.choice([0.0, 0.0, 0.2])
+        rows.append({n: gen_value(rng, pm) if rng.random() < 0.5 else rng.randint(-50, 50) * (int(n.split(":")[0]) + 2) + int(n.split(":")[1]) for n in names})
+    return {"kind": "pool", "requests": reqs, "rows": rows}
+
+
+def gen_stall(rng, names, nrows):
+    """[stream, first stalled row, number of stalled rows]: 7..9 rows of 10 s = 70..90 s without a sample"""
+    n = rng.choice([7, 7, 8, 9])
+    k0 = rng.randint(1, max(1, nrows - n))
+    return [str(rng.choice(names)), k0, n]
+
+
 def run_case(case, exact=True):
     import async_solipsism
-    fn = {"str": _run_str, "ho": _run_ho, "raw": _run_raw, "signed": _run_signed}[case["kind"]]
+    fn = {"str": _run_str, "ho": _run_ho, "raw": _run_raw, "signed": _run_signed, "pool": _run_pool}[case["kind"]]
     loop = async_solipsism.EventLoop()
     try:
         return loop.run_until_complete(fn(case, exact))
@@ -546,7 +674,9 @@ def run_both(case):
         obs["float_out"] = fl.get("out")
         for b, fb in zip(obs.get("builds", []), fl.get("builds", [])):
             b["float_out"] = fb.get("out")
-        obs["float_steps_same_shape"] = [s[:1] + ([s[1]] if s[0] in ("op", "fetch") else []) for s in fl.get("steps", [])] == \
+        for b, fb in zip(obs.get("requests", []), fl.get("requests", [])):
+            b["float_out"] = fb.get("out")
+        obs["float_steps_same_shape"] = "steps" not in obs or [s[:1] + ([s[1]] if s[0] in ("op", "fetch") else []) for s in fl.get("steps", [])] == \
                                         [s[:1] + ([s[1]] if s[0] in ("op", "fetch") else []) for s in obs["steps"]]
     return obs
 
@@ -947,6 +1077,23 @@ Definition check_signed (c : N * bool * list sterm * (list step * list (N * bool
                              * list (list (N * inp) * outcome)) : bool :=
   let '(n0, z0, rest, ep, rows) := c in
   let p := compile_signed n0 z0 rest in prog_eqb p ep && rows_ok p rows.
+(* FormulaEnginePool.from_string: requests (formula, metric name, nones_are_zeros) on one pool; for every request
+   the implementation's program of the engine it got and the rounds on the streams of the request's metric *)
+Fixpoint forall2b {A B} (f : A -> B -> bool) (a : list A) (b : list B) : bool :=
+  match a, b with
+  | [], [] => true
+  | x :: xs, y :: ys => f x y && forall2b f xs ys
+  | _, _ => false
+  end.
+Definition check_pool (c : list (list N * list N * bool * (list step * list (N * bool))
+                                 * list (list (N * inp) * outcome))) : bool :=
+  let engines := pool_requests (map (fun r => let '(f, m, nz, _, _) := r in (f, m, nz)) c) in
+  forall2b (fun r e => let '(_, m, _, ep, rows) := r in
+              list_eqb N.eqb (pe_metric e) m &&
+              match pe_prog e with
+              | Some p => prog_eqb p ep && rows_ok p rows
+              | None => false
+              end) c engines.
 (* raw FormulaBuilder calls *)
 Inductive bcall := COper (o : oper) | CMetric (n : N) (nz : bool) | CConst (v : val) | CClip (lo hi : option val).
 Definition do_call (b : builder) (c : bcall) : builder :=
@@ -1229,6 +1376,15 @@ def shrink_case(case):
         for t in shrink_hb(case["tree"]):
             if t[0] != "s":
                 yield fix_rows({**case, "tree": t}, sorted(hb_names(t)))
+    elif case["kind"] == "pool":
+        r = case["requests"]
+        for i in range(len(r)):
+            if len(r) > 1:
+                yield {**case, "requests": r[:i] + r[i + 1:]}
+        for i, (a, m, nz) in enumerate(r):
+            for a2 in shrink_ast(a):
+                if ast_vars(a2):
+                    yield {**case, "requests": r[:i] + [[a2, m, nz]] + r[i + 1:]}
     elif case["kind"] == "signed":
         t = case["terms"]
         for i in range(len(t)):
